@@ -97,14 +97,14 @@
         /// the (lower-case) bytes of the name
         pub uninterp spec fn view(&self) -> Seq<u8>;
         #[verifier::external_body]
-        pub fn from_static(src: &'static str) -> (r: HeaderName)
+        pub const fn from_static(src: &'static str) -> (r: HeaderName)
             ensures r.view() == crate::str_bytes(src)
         { unimplemented!() }
     }
     impl HeaderValue {
         pub uninterp spec fn view(&self) -> Seq<u8>;
         #[verifier::external_body]
-        pub fn from_static(src: &'static str) -> (r: HeaderValue)
+        pub const fn from_static(src: &'static str) -> (r: HeaderValue)
             ensures r.view() == crate::str_bytes(src)
         { unimplemented!() }
         #[verifier::external_body]
